@@ -24,6 +24,7 @@ def render(fails, modname: str):
 def main() -> None:
     job = json.loads(sys.stdin.read())
     sys.path.insert(0, "/verif")
+    sys.path.insert(0, os.environ.get("VERIF_REPO", "/repo"))
     os.environ.setdefault("PYANALYZE_VERIF", "1")
     from harness import pyz
 
